@@ -333,6 +333,36 @@ FORMATS = [("{message}", "{message}"), ("{level.name}|{message}", "{level.name}|
            ("{time:YYYY}|{name}|{message}", "{time:YYYY}|{name}|{message}"), ("", "")]
 
 
+TIMEDELTAS = [pydt.timedelta(0), pydt.timedelta(days=1), pydt.timedelta(days=1, seconds=5, microseconds=250000),
+              pydt.timedelta(seconds=-1), pydt.timedelta(microseconds=-1), pydt.timedelta(days=-3, microseconds=1),
+              pydt.timedelta(seconds=86399, microseconds=999999), pydt.timedelta(days=365, hours=6),
+              pydt.timedelta(days=999999999), pydt.timedelta.max, pydt.timedelta.min, pydt.timedelta(days=-1),
+              pydt.timedelta(weeks=2, seconds=1), pydt.timedelta(microseconds=1), pydt.timedelta(days=2, microseconds=999999)]
+
+
+def gen_timedelta(rng):
+    if rng.chance(60):
+        return rng.choice(TIMEDELTAS)
+    return pydt.timedelta(days=rng.range(-20000, 20000) if rng.chance(70) else 0, seconds=rng.range(0, 86399),
+                          microseconds=rng.choice([0, 1, 250000, 999999, rng.range(0, 999999)]))
+
+
+def gen_datetime(rng):
+    from loguru._datetime import datetime as ldt
+    tz = rng.choice([pydt.timezone.utc, pydt.timezone(pydt.timedelta(seconds=-3661)), pydt.timezone(pydt.timedelta(hours=14), "X\n")])
+    k = rng.below(6)
+    if k == 0:
+        return ldt(1, 1, 2, 0, 0, 0, 0, tzinfo=tz)
+    if k == 1:
+        return ldt(9999, 12, 30, 23, 59, 59, 999999, tzinfo=tz)
+    if k == 2:
+        return ldt(1969, 12, 31, 23, 59, 59, 500000, tzinfo=pydt.timezone.utc)
+    if k == 3:
+        return pydt.datetime(rng.range(1971, 2200), rng.range(1, 12), rng.range(1, 28), rng.range(0, 23), 30, 15, rng.range(0, 999999))
+    return ldt(rng.range(1, 9999), rng.range(1, 12), rng.range(1, 28), rng.range(0, 23), rng.range(0, 59), rng.range(0, 59),
+               rng.choice([0, 1, 999999, rng.range(0, 999999)]), tzinfo=tz)
+
+
 def gen_case(seed):
     """everything about one logging call, derived from one integer"""
     rng = core.Rng(seed)
@@ -360,6 +390,20 @@ def gen_case(seed):
         c["patch"] = ("name", None)
     elif pk == 4:
         c["patch"] = ("line", rng.choice(INTS))
+    elif pk == 5:
+        # fields that `_serialize_record` reads through a METHOD or an ATTRIBUTE of the record's object: a patcher
+        # may put any object of the documented type there (elapsed of several days / negative, other instants …)
+        stats("patch:elapsed")
+        c["patch"] = ("elapsed", gen_timedelta(rng))
+    elif pk == 6:
+        stats("patch:time")
+        c["patch"] = ("time", gen_datetime(rng))
+    elif pk == 7:
+        k = rng.below(3)
+        stats("patch:" + ["file", "process", "thread"][k])
+        c["patch"] = [("file", gen_text(rng, 5), "/" + gen_text(rng, 6)),
+                      ("process", rng.choice(INTS + [None]), gen_text(rng, 4)),
+                      ("thread", rng.choice(INTS + [None]), gen_text(rng, 4))][k]
     ek = rng.below(10)
     c["exc"] = None
     if ek == 0:
@@ -463,6 +507,10 @@ def run_impl(c, colorize=None, sink_factory=None, pair=None):
             elif p[0] == "level":
                 from loguru._recattrs import RecordLevel
                 lg = lg.patch(lambda r: r.__setitem__("level", RecordLevel(r["level"].name, p[1], p[2])))
+            elif p[0] in ("file", "process", "thread"):
+                import loguru._recattrs as ra
+                cls = {"file": ra.RecordFile, "process": ra.RecordProcess, "thread": ra.RecordThread}[p[0]]
+                lg = lg.patch(lambda r: r.__setitem__(p[0], cls(p[1], p[2])))
             else:
                 lg = lg.patch(lambda r: r.__setitem__(p[0], p[1]))
         exc = make_exc(c["exc"])
@@ -1102,6 +1150,7 @@ def replay(ctx, rep):
     res = run_impl(c, **kw)
     print("message   : %r" % c["message"])
     print("format    : %r   level: %r   exception: %r" % (c["format"][0], c["level"], c["exc"]))
+    print("patch     : %r   bind: %r   contextualize: %r" % (c["patch"], c["bind"], c["ctx"]))
     if res["twin"]:
         print("extra     : %r" % (res["twin"][0].record["extra"],))
     print("impl      : %s" % (repr(str(res["out"][0])) if res["out"] else "nothing emitted, error %r" % (res["err"],)))
